@@ -71,3 +71,37 @@ Definition run_k40 (args : list sx) : sx :=
                              ops (s1, []))))
   | _ => bad
   end.
+
+(* ---------- K5 validation scenarios: (41 target value) ---------- *)
+From LNN Require Import Store.
+Open Scope Z_scope.
+Fixpoint dvalue (fuel : nat) (s : sx) : value :=
+  match fuel with
+  | O => VOther
+  | S f =>
+      match s with
+      | L (A 0 :: l :: u :: _) => VFact (dq l, dq u)
+      | L [A 1; b] => VBool (dbool b)
+      | L [A 2; x] => VFloat (dq x)
+      | L [A 3; l; u] => VPair (dq l) (dq u)
+      | L [A 4; n] => VTuple (dnat n)
+      | L [A 5] => VStrPair
+      | L [A 6; L inner] => VDict (map (dvalue f) inner)
+      | _ => VOther
+      end
+  end.
+Definition dtarget (s : sx) : target :=
+  match dz s with 0 => TPropMember | 1 => TPropOutsider | 2 => TFolMember | _ => TFolOutsider end.
+Definition everr (e : verr) : sx := A (match e with ETypeError => 4 | EIndexError => 3 | EException => 7 end).
+(* output: (error-code-or-0  stored-bounds  read-back of the data that was there before) *)
+Definition run_k41 (args : list sx) : sx :=
+  match args with
+  | [t; v] =>
+      let before := B (1 # 4)%Q (3 # 4)%Q in
+      match validate (dtarget t) (dvalue 3 v) with
+      | inl e => L [everr e; L []; ebnd before]
+      | inr bs => L [A 0; L (map ebnd bs);
+                     ebnd (match dtarget t, bs with TPropMember, b :: _ => b | _, _ => before end)]
+      end
+  | _ => bad
+  end.
